@@ -1,4 +1,4 @@
-\* pass P: the property on recorded real state; accounting clauses modulo deviations recognisable from the recorded pre-state (Put of another content on a cached key)
+\* pass P, strict, without NoTornPeek: used to finish a concurrent trace after a torn Peek has been reported
 CONSTANT Threads = {"t1", "t2", "t3", "t4"}
 CONSTANT Keys <- TKeys
 CONSTANT CvKeys <- TCvKeys
@@ -21,8 +21,7 @@ CHECK_DEADLOCK FALSE
 SPECIFICATION PSpec
 INVARIANT Fresh
 INVARIANT FreshAfterInvalidate
-INVARIANT NoTornPeek
 INVARIANT Bounded
 INVARIANT ItemsExact
-INVARIANT BytesExactND
-INVARIANT EmptyIsZeroND
+INVARIANT BytesExact
+INVARIANT EmptyIsZero
